@@ -80,6 +80,17 @@ pub fn plan_for(prop: &str, tier: Tier, seed: u64, verif_dir: &str) -> Option<Pl
 			probes: vec![],
 			exhaustive: false,
 		},
+		"C10" => Plan {
+			property: "C10".into(),
+			tier,
+			seed,
+			jobs: vec![job("lnsim", "crashsweep", n(16, 400)), job("lnsim", "crash", n(400, 20000))],
+			level: "fault_enumeration".into(),
+			rule: "TODO".into(),
+			assumptions: t_assumptions.clone(),
+			probes: vec![],
+			exhaustive: false,
+		},
 		"C13" => Plan {
 			property: "C13".into(),
 			tier,
@@ -117,6 +128,17 @@ pub fn plan_for(prop: &str, tier: Tier, seed: u64, verif_dir: &str) -> Option<Pl
 			probes: vec![],
 			exhaustive: false,
 		},
+		"C17" => Plan {
+			property: "C17".into(),
+			tier,
+			seed,
+			jobs: vec![job("gossipsim", "mixed", n(20000, 300000))],
+			level: "exploration".into(),
+			rule: "TODO".into(),
+			assumptions: t_assumptions.clone(),
+			probes: vec![],
+			exhaustive: false,
+		},
 		"C19" => Plan {
 			property: "C19".into(),
 			tier,
@@ -124,6 +146,9 @@ pub fn plan_for(prop: &str, tier: Tier, seed: u64, verif_dir: &str) -> Option<Pl
 			jobs: vec![
 				xjob("storesim", "v1", n(12000, 300000), verif_dir),
 				xjob("storesim", "v2", n(12000, 300000), verif_dir),
+				job("persistsim", "sync", n(2000, 40000)),
+				job("persistsim", "async-fifo", n(1000, 20000)),
+				job("persistsim", "async", n(200, 2000)),
 			],
 			level: "exploration".into(),
 			rule: "TODO".into(),
